@@ -40,6 +40,10 @@ def run(ctx):
            cells=ccells,
            timeout=tmo, twin_fn='tw_counting', twin_pre=['len(ops) == 3'], confirm='confirm_counting',
            desc='StatsMiddleware.request + report/reset endpoints vs model counter; next() outcome by selector'),
+        Ob('e2e_counting', 'ob_e2e_counting', '', packed=[('o0', 14), ('o1', 14), ('o2', 14), ('o3', 14)],
+           cells=[('o%d_%d' % (a, b), [{'o0': a, 'o1': b}]) for a in range(0, 14, 2) for b in range(14) if (T or (b % 2 == 0 and b >= 8) or a >= 10)], timeout=tmo, confirm='confirm_e2e_counting',
+           desc='4 operations through the WSGI client of a real application with the stats sub-application mounted: every report (read / reset endpoint) equals the model, in which '
+                'the stats application\'s own routes are counted like any other (the reset request is the first request of the new period)'),
     ]
     res = run_obligations('C19', 'harness.c19', obs, ctx.tier)
     res.functions_encoded += ['clastic.middleware.stats.Reservoir.__init__/add/resize/__iter__/total_count',
